@@ -86,3 +86,30 @@ V('C12-filter-first-geometry', 'C12', PQ, "    geometry = meta.geometry.name\n",
 V('C12-silent-demorgan', 'C12', PQ, "        inds = ~(\n            (partitions_df.x1 < x0) |\n            (partitions_df.y1 < y0) |\n            (partitions_df.x0 > x1) |\n            (partitions_df.y0 > y1)\n        )",
   "        inds = (\n            (partitions_df.x1 >= x0) &\n            (partitions_df.y1 >= y0) &\n            (partitions_df.x0 <= x1) &\n            (partitions_df.y0 <= y1)\n        )", expect='silent')
 V('C12-silent-swap-operands', 'C12', PQ, "            (partitions_df.x1 < x0) |", "            (x0 > partitions_df.x1) |", expect='silent')
+
+# ------------------------------------------------------------------------------------------------ C03
+V('C03-node-outside-le', 'C03', RT, "                        query_bounds[n + d] < node_bounds[d] or", "                        query_bounds[n + d] <= node_bounds[d] or", rule='C03.a')
+V('C03-node-inside-weaker', 'C03', RT, "                if (node_bounds[d] < query_bounds[d] or\n                        node_bounds[n + d] > query_bounds[n + d]):", "                if (node_bounds[d] < query_bounds[d] and\n                        node_bounds[n + d] > query_bounds[n + d]):", rule='C03.a')
+V('C03-reintroduce-D4-node-nan', ['C03', 'C17'], RT, "                if (np.isnan(node_bounds[d]) or np.isnan(node_bounds[n + d]) or\n                        query_bounds[n + d] < node_bounds[d] or", "                if (query_bounds[n + d] < node_bounds[d] or", rule='C03.c', rules={'C03': 'C03.c', 'C17': 'C17'})
+V('C03-reintroduce-D4-page-min', ['C03', 'C17'], RT, "d_mins = [np.nanmin(page_bounds[:, d]) for d in range(n)]", "d_mins = [np.min(page_bounds[:, d]) for d in range(n)]", rule='C03.c', rules={'C03': 'C03.c', 'C17': 'C17'})
+V('C03-reintroduce-D4-covered-unfiltered', ['C03', 'C17'], RT, "            next_slice = self._keys[start:stop][self._valid_mask(start, stop)]\n            covers_inds[covers_start", "            next_slice = self._keys[start:stop]\n            covers_inds[covers_start", rule='C03.c', rules={'C03': 'C03.c', 'C17': 'C17'})
+V('C03-reintroduce-D4-leaf-mask', ['C03', 'C17'], RT, "            outside_mask = ~self._valid_mask(start, stop)\n            for d in range(n):\n                outside_mask |= (bounds_slice[:, d + n] < query_bounds[d])\n                outside_mask |= (bounds_slice[:, d] > query_bounds[d + n])\n\n            next_slice = next_slice[~outside_mask]",
+  "            outside_mask = np.zeros(bounds_slice.shape[0], dtype=np.bool_)\n            for d in range(n):\n                outside_mask |= (bounds_slice[:, d + n] < query_bounds[d])\n                outside_mask |= (bounds_slice[:, d] > query_bounds[d + n])\n\n            next_slice = next_slice[~outside_mask]", rule='C03.c', rules={'C03': 'C03.c', 'C17': 'C17'})
+V('C03-leaf-outside-le', 'C03', RT, "                outside_mask |= (bounds_slice[:, d + n] < query_bounds[d])\n                outside_mask |= (bounds_slice[:, d] > query_bounds[d + n])\n\n            next_slice", "                outside_mask |= (bounds_slice[:, d + n] <= query_bounds[d])\n                outside_mask |= (bounds_slice[:, d] > query_bounds[d + n])\n\n            next_slice", rule='C03.b')
+V('C03-covers-mask-gt', 'C03', RT, "                covers_mask &= (bounds_slice[:, d] >= query_bounds[d])", "                covers_mask &= (bounds_slice[:, d] > query_bounds[d])", rule='C03.b')
+V('C03-covers-mask-init', 'C03', RT, "            covers_mask = np.ones(bounds_slice.shape[0], dtype=np.bool_)", "            covers_mask = np.zeros(bounds_slice.shape[0], dtype=np.bool_)", rule='C03.b')
+V('C03-overlaps-includes-covered', 'C03', RT, "            overlaps_slice = next_slice[~(outside_mask | covers_mask)]", "            overlaps_slice = next_slice[~outside_mask]", rule='C03.b')
+V('C03-cursor-not-advanced', 'C03', RT, "            covers_inds[covers_start:covers_start + len(covers_slice)] = covers_slice\n            covers_start += len(covers_slice)\n", "            covers_inds[covers_start:covers_start + len(covers_slice)] = covers_slice\n", rule='C03.f')
+V('C03-cursor-wrong-len', 'C03', RT, "            next_slice = self._keys[start:stop][self._valid_mask(start, stop)]\n            result[result_start:result_start + len(next_slice)] = next_slice\n            result_start += len(next_slice)",
+  "            next_slice = self._keys[start:stop][self._valid_mask(start, stop)]\n            result[result_start:result_start + len(next_slice)] = next_slice\n            result_start += stop - start", rule='C03.f')
+V('C03-stop-index-off-by-one', 'C03', RT, "                page = node - leaf_start + 1\n", "                page = node - leaf_start\n", rule='C03.e')
+V('C03-leaf-start-off', 'C03', RT, "        return (self._bounds_tree.shape[0] + 1) // 2 - 1", "        return (self._bounds_tree.shape[0] + 1) // 2", rule='C03.e')
+V('C03-start-index-right-child', 'C03', RT, "        while True:\n            child = _left_child(node)\n            if child >= self._bounds_tree.shape[0]:\n                page = node - leaf_start\n", "        while True:\n            child = _right_child(node)\n            if child >= self._bounds_tree.shape[0]:\n                page = node - leaf_start\n", rule='C03.e')
+V('C03-parent-max-of-lb', 'C03', RT, "d_maxes = [max(left_bounds[d + n], right_bounds[d + n]) for d in range(n)]", "d_maxes = [max(left_bounds[d], right_bounds[d + n]) for d in range(n)]", rule='C03.d')
+V('C03-page-max-over-lb', 'C03', RT, "d_maxes = [np.nanmax(page_bounds[:, d + n]) for d in range(n)]", "d_maxes = [np.nanmax(page_bounds[:, d]) for d in range(n)]", rule='C03.d')
+V('C03-bounds-slice-shifted', 'C03', RT, "            bounds_slice = self._bounds[start:stop, :]\n\n            # Check which bounds are fully outside query region", "            bounds_slice = self._bounds[start + 1:stop + 1, :]\n\n            # Check which bounds are fully outside query region", rule='C03.g')
+V('C03-unsorted-bounds-stored', 'C03', RT, "        return sorted_bounds, keys, bounds_tree", "        return bounds, keys, bounds_tree", rule='C03.g')
+V('C03-silent-node-inside-stricter', 'C03', RT, "                if (node_bounds[d] < query_bounds[d] or\n                        node_bounds[n + d] > query_bounds[n + d]):", "                if (node_bounds[d] <= query_bounds[d] or\n                        node_bounds[n + d] >= query_bounds[n + d]):", expect='silent')
+V('C03-silent-mirrored-compare', 'C03', RT, "                outside_mask |= (bounds_slice[:, d] > query_bounds[d + n])\n\n            next_slice", "                outside_mask |= (query_bounds[d + n] < bounds_slice[:, d])\n\n            next_slice", expect='silent')
+V('C03-silent-leaf-positive-form', 'C03', RT, "            outside_mask = ~self._valid_mask(start, stop)\n            for d in range(n):\n                outside_mask |= (bounds_slice[:, d + n] < query_bounds[d])\n                outside_mask |= (bounds_slice[:, d] > query_bounds[d + n])\n\n            next_slice = next_slice[~outside_mask]",
+  "            keep_mask = np.ones(bounds_slice.shape[0], dtype=np.bool_)\n            for d in range(n):\n                keep_mask &= (bounds_slice[:, d + n] >= query_bounds[d])\n                keep_mask &= (bounds_slice[:, d] <= query_bounds[d + n])\n\n            next_slice = next_slice[keep_mask]", expect='silent')
